@@ -785,6 +785,94 @@ def float_accuracy_rule(repo, rep, mod, q, param, witnesses, reference, tol, suf
         rep.holds('R-DOMAIN', key, where(f, f.node), '%s agrees with the 60-digit reference to %.0e on the %d witnesses next to the vanishing set of the discriminant' % (q, tol, n_ok))
 
 
+def projection_constants(repo):
+    """{name: {field: number}} of the module-level Projection(...) objects of geodepy.constants (constant arguments only)"""
+    m = repo.module('geodepy.constants')
+    cls = m.classes.get('Projection')
+    if cls is None or cls.init() is None:
+        raise AnalysisError('anchor vanished: constants.Projection')
+    fields = [p.name for p in cls.init().params if p.name != 'self']
+    out = {}
+    for st in m.tree.body:
+        if isinstance(st, ast.Assign) and len(st.targets) == 1 and isinstance(st.targets[0], ast.Name) and isinstance(st.value, ast.Call) \
+                and getattr(st.value.func, 'id', '') == 'Projection':
+            vals = {}
+            for nm, a in list(zip(fields, st.value.args)) + [(k.arg, k.value) for k in st.value.keywords]:
+                try:
+                    vals[nm] = ast.literal_eval(a)
+                except (ValueError, SyntaxError):
+                    pass
+            out[st.targets[0].id] = vals
+    return out
+
+
+def longitude_range_rule(repo, rep):
+    """grid -> geographic hands its longitude to geographic -> grid (the round trip of C02, `CoordTM.geo().tm()`, the psf/convergence pair of
+    C10): geo2grid accepts [-180, 180] only.  The longitude returned by grid2geo is `central meridian + degrees(atan(..))`: for the zones
+    next to the +/-180 meridian (60 east of its meridian, 1 west of it) the sum leaves that range unless it is folded back.  Forward interval
+    analysis of grid2geo (sv/intervals.py) over zones 1..60 of the UTM and the ten ISG zones: the interval of the returned longitude must lie
+    inside the interval the forward routine's own validation accepts."""
+    from ..intervals import Interp, TOP
+    f = repo.func('geodepy.convert', 'grid2geo')
+    g = repo.func('geodepy.convert', 'geo2grid')
+    key = 'R-RANGE::geodepy/convert.py::grid2geo::longitude-accepted-by-geo2grid'
+    # what the forward routine accepts: the raising test on its longitude parameter
+    lon_name = g.params[1].name
+    lo_ok, hi_ok = None, None
+    for n in ast.walk(g.node):
+        if isinstance(n, ast.If) and any(isinstance(x, ast.Raise) for x in n.body):
+            for c in ast.walk(n.test):
+                if isinstance(c, ast.Compare) and len(c.ops) == 1 and isinstance(c.left, ast.Name) and c.left.id == lon_name:
+                    try:
+                        k = ast.literal_eval(c.comparators[0])
+                    except (ValueError, SyntaxError):
+                        continue
+                    if isinstance(c.ops[0], (ast.Lt, ast.LtE)):
+                        lo_ok = k
+                    if isinstance(c.ops[0], (ast.Gt, ast.GtE)):
+                        hi_ok = k
+    if lo_ok is None or hi_ok is None:
+        rep.undecided('R-RANGE', key, where(g, g.node), 'the longitude validation of geo2grid was not recognised')
+        return
+    prj = projection_constants(repo)
+    if 'utm' not in prj or 'isg' not in prj:
+        raise AnalysisError('anchor vanished: constants.utm / constants.isg')
+    isg_zones = []
+    for n in ast.walk(f.node):
+        if isinstance(n, ast.Compare) and isinstance(n.ops[0], ast.NotIn) and isinstance(n.comparators[0], (ast.Tuple, ast.List, ast.Set)):
+            isg_zones = [x.value for x in n.comparators[0].elts if isinstance(x, ast.Constant) and x.value]
+    worst = None
+    n_cfg = 0
+    for pname, zones in (('utm', [(1, 60)]), ('isg', [(z, z) for z in isg_zones])):
+        for zr in zones:
+            n_cfg += 1
+            ip = Interp({'zone': zr}, attrs=dict((('prj', k), (v, v)) for k, v in prj[pname].items() if isinstance(v, (int, float))),
+                        tests={'prj == isg': pname == 'isg', 'prj != isg': pname != 'isg'})
+            # the validation at the top of the function does not matter to the range; start from the parameters
+            body = [st for st in f.node.body if not (isinstance(st, ast.Assign) and len(st.targets) == 1 and isinstance(st.targets[0], ast.Name) and st.targets[0].id == 'zone')]
+            ip.run(body, dict(ip.env))
+            if not ip.returns:
+                rep.undecided('R-RANGE', key, where(f, f.node), 'no return reached by the interval analysis (%s)' % pname)
+                return
+            for st, val in ip.returns:
+                v = val[1] if isinstance(val, tuple) and len(val) > 1 else TOP
+                if v is TOP:
+                    rep.undecided('R-RANGE', key, where(f, st), 'the interval of the returned longitude is not bounded by the analysis (%s, zone %s)' % (pname, zr))
+                    return
+                if v[0] < lo_ok - 1e-9 or v[1] > hi_ok + 1e-9:
+                    if worst is None or (v[1] - v[0]) > (worst[2][1] - worst[2][0]):
+                        worst = (pname, zr, v, st)
+    if worst:
+        pname, zr, v, st = worst
+        rep.violated('R-RANGE', key, where(f, st), 'the longitude grid2geo returns ranges over [%.6g, %.6g] for %s zones %s..%s, geo2grid accepts [%s, %s] only: east of the central meridian of '
+                     'zone 60 (west of that of zone 1) the sum `cm + long_diff` passes 180 - grid2geo(60, 900000, 6000000) returns 181.44027606766 and '
+                     'geo2grid(-36.06236199892, 181.44027606766, 60) raises "Invalid Longitude", so grid -> geographic -> grid does not close there' % (
+                         v[0], v[1], pname.upper(), zr[0], zr[1], lo_ok, hi_ok), expected='longitude folded into [%s, %s]' % (lo_ok, hi_ok), actual='[%.6g, %.6g]' % v)
+    else:
+        rep.holds('R-RANGE', key, where(f, f.node), 'the returned longitude stays inside [%s, %s], the range geo2grid accepts, for zones 1..60 and the %d ISG zones (%d configurations)' % (
+            lo_ok, hi_ok, len(isg_zones), n_cfg))
+
+
 def identity_flag_rule(repo, rep, modname):
     """a parameter that the callee tests by IDENTITY (`flag is False`, `flag is None`) must be handed True / False / None themselves: the
     result of a comparison is a bool only for Python numbers - for numpy scalars (an np.float64 taken from an array is a float) it is a
